@@ -309,3 +309,5 @@ benign("c17-benign-range-conservative", "C17", OPT, "        return start, last"
 mutant("c05-collision-universe-interface-only", "C05", UIF, "    return ir.convenience.create_value_mapping(graph, include_subgraphs=False)", "    return {v.name: v for v in (*graph.inputs, *graph.outputs) if getattr(v, 'name', None)}", expect="collision-universe")
 mutant("c19-manual-positional-guard-off-by-one", "C19", "jax2onnx/plugins/jax/numpy/concatenate.py", "        if len(args) > 2:\n            dtype = args[2]", "        if len(args) > 3:\n            dtype = args[2]", expect="R-C19d")
 mutant("c11-version-gated-dtype-partial", "C11", "jax2onnx/plugins/jax/numpy/arange.py", "            if result_dtype not in _OPSET27_NATIVE_RANGE_DTYPES\n            or use_native_range_dtype", "            if result_dtype != np.dtype(jnp.bfloat16)\n            or use_native_range_dtype", expect="R-C11d")
+mutant("c07-function-counter-keyed-by-target", "C07", PS, '        counter_key = (namespace, base, "shared")', '        counter_key = (namespace, self.name, "shared")', expect="R-C07d")
+benign("c07-benign-counter-key-order", "C07", PS, '        counter_key = (namespace, base, "shared")', '        counter_key = ("shared", base, namespace)')
